@@ -1,0 +1,14 @@
+//go:build verif
+
+package extractor
+
+// VerifContext builds the expression context the extractor hands to compiled
+// expressions for one match (unexported fields), so that a verification harness
+// can evaluate GetKey(".") / GetKey("#") / GetKey(".#") on chosen inputs.
+func VerifContext(line string, indices []int, nameTable map[string]int) *SliceSpaceExpressionContext {
+	return &SliceSpaceExpressionContext{
+		linePtr:   line,
+		indices:   indices,
+		nameTable: nameTable,
+	}
+}
